@@ -124,6 +124,7 @@ type sgen struct {
 	// intent: what the last generated statement means, written down next to the text (never through the
 	// BQL parser): kind, graph names, data triples
 	intent string
+	lastXcc string
 }
 
 func hxList(xs []string) string {
@@ -192,60 +193,100 @@ func (s *sgen) template(kinds map[string]byte, reify bool) string {
 		}
 		return c[r.intn(len(c))]
 	}
-	or := func(b, alt string) string {
-		if b == "" {
-			return alt
+	// each piece: its text and what it means (the fields of the construct clause / pair, in the order of encPOPair)
+	constP := func(p *predicate.Predicate) (string, [5]string) {
+		tmp := "0"
+		if p.Type() == predicate.Temporal {
+			tmp = "1"
 		}
-		return b
+		return p.String(), [5]string{encPred(p), hx(""), hx(""), hx(""), tmp}
 	}
-	subj := func() string {
+	partP := func(id, b string) (string, [5]string) {
+		return fmt.Sprintf(`"%s"@[%s]`, id, b), [5]string{"-", hx(id), hx(""), hx(b), "1"}
+	}
+	subj := func() (string, string, string) {
+		constN := func() (string, string, string) {
+			n := qNodes[r.intn(len(qNodes))]
+			return n.String(), encNode(n), hx("")
+		}
 		switch x := r.intn(10); {
 		case x < 3:
-			return qNodes[r.intn(len(qNodes))].String()
+			return constN()
 		case x < 4:
-			return "_:v" + fmt.Sprint(r.intn(2))
+			id := "v" + fmt.Sprint(r.intn(2))
+			return "_:" + id, encNode(mustNode("/_", id)), hx("")
 		default:
-			return or(of("n"), qNodes[r.intn(len(qNodes))].String())
+			if b := of("n"); b != "" {
+				return b, "-", hx(b)
+			}
+			return constN()
 		}
 	}
-	pred := func() string {
+	pred := func() (string, [5]string) {
 		switch x := r.intn(10); {
 		case x < 5:
-			return qPreds[r.intn(len(qPreds))].String()
+			return constP(qPreds[r.intn(len(qPreds))])
 		case x < 7:
 			if b := of("t"); b != "" {
-				return fmt.Sprintf(`"%s"@[%s]`, []string{"p", "n"}[r.intn(2)], b)
+				return partP([]string{"p", "n"}[r.intn(2)], b)
 			}
-			return qPreds[r.intn(len(qPreds))].String()
+			return constP(qPreds[r.intn(len(qPreds))])
 		default:
-			return or(of("p"), qPreds[r.intn(len(qPreds))].String())
+			if b := of("p"); b != "" {
+				return b, [5]string{"-", hx(""), hx(b), hx(""), "0"}
+			}
+			return constP(qPreds[r.intn(len(qPreds))])
 		}
 	}
-	obj := func() string {
+	obj := func() (string, [5]string) {
+		constO := func() (string, [5]string) {
+			o := qObjs[r.intn(len(qObjs))]
+			tmp := "0"
+			if op, err := o.Predicate(); err == nil && op.Type() == predicate.Temporal {
+				tmp = "1"
+			}
+			return o.String(), [5]string{encObj(o), hx(""), hx(""), hx(""), tmp}
+		}
 		switch x := r.intn(10); {
 		case x < 3:
-			return qObjs[r.intn(len(qObjs))].String()
+			return constO()
 		case x < 4:
 			if b := of("t"); b != "" {
-				return fmt.Sprintf(`"%s"@[%s]`, []string{"p", "n"}[r.intn(2)], b)
+				return partP([]string{"p", "n"}[r.intn(2)], b)
 			}
-			return qObjs[r.intn(len(qObjs))].String()
+			return constO()
 		case x < 5:
-			return "_:v" + fmt.Sprint(r.intn(2))
+			id := "v" + fmt.Sprint(r.intn(2))
+			return "_:" + id, [5]string{encObj(triple.NewNodeObject(mustNode("/_", id))), hx(""), hx(""), hx(""), "0"}
 		default:
-			return or(of("npo"), qObjs[r.intn(len(qObjs))].String())
+			if b := of("npo"); b != "" {
+				return b, [5]string{"-", hx(""), hx(b), hx(""), "0"}
+			}
+			return constO()
 		}
 	}
-	var cls []string
+	pair := func() (string, string) {
+		pt, pf := pred()
+		ot, of_ := obj()
+		return pt + " " + ot, strings.Join(append(pf[:], of_[:]...), "~")
+	}
+	var cls, xcc []string
 	for i := 0; i < 1+r.intn(2); i++ {
-		c := subj() + " " + pred() + " " + obj()
+		st, sn, sb := subj()
+		pt, pe := pair()
+		c := st + " " + pt
+		pairs := []string{pe}
 		if reify && r.chance(1, 2) {
 			for k := 0; k < 1+r.intn(2); k++ {
-				c += " ; " + pred() + " " + obj()
+				pt, pe := pair()
+				c += " ; " + pt
+				pairs = append(pairs, pe)
 			}
 		}
 		cls = append(cls, c)
+		xcc = append(xcc, sn+"|"+sb+"|"+strings.Join(pairs, "^"))
 	}
+	s.lastXcc = strings.Join(xcc, ";")
 	return strings.Join(cls, " . ")
 }
 
@@ -338,14 +379,16 @@ func (s *sgen) statement() string {
 	case x < 17:
 		w, bs := s.where()
 		og, ig := s.someExisting(2), s.someExisting(2)
-		s.intent = " xty=5 xog=" + hxList(og) + " xg=" + hxList(ig)
-		return fmt.Sprintf("construct { %s } into %s from %s where { %s };", s.template(bs, true), strings.Join(og, ", "),
+		tpl := s.template(bs, true)
+		s.intent = " xty=5 xog=" + hxList(og) + " xg=" + hxList(ig) + " xcc=" + s.lastXcc
+		return fmt.Sprintf("construct { %s } into %s from %s where { %s };", tpl, strings.Join(og, ", "),
 			strings.Join(ig, ", "), w)
 	default:
 		w, bs := s.where()
 		og, ig := s.someExisting(2), s.someExisting(2)
-		s.intent = " xty=6 xog=" + hxList(og) + " xg=" + hxList(ig)
-		return fmt.Sprintf("deconstruct { %s } in %s from %s where { %s };", s.template(bs, false), strings.Join(og, ", "),
+		tpl := s.template(bs, false)
+		s.intent = " xty=6 xog=" + hxList(og) + " xg=" + hxList(ig) + " xcc=" + s.lastXcc
+		return fmt.Sprintf("deconstruct { %s } in %s from %s where { %s };", tpl, strings.Join(og, ", "),
 			strings.Join(ig, ", "), w)
 	}
 }
